@@ -125,6 +125,10 @@ class EncodingDB:
                     try:
                         cid2unicode[cid] = name2unicode(cast(str, x.name))
                     except (KeyError, ValueError) as e:
+                        # The code is assigned a glyph without a known unicode
+                        # value: it must not keep the character of the glyph
+                        # it had before.
+                        cid2unicode.pop(cid, None)
                         log.debug(str(e))
                     cid += 1
         return cid2unicode
